@@ -246,7 +246,7 @@ func (x *Exec) freshVal(hint string, t types.Type) *Val {
 		arr := x.vc.Fresh(hint+".arr", arrSort(e.elemSort(el)))
 		ln := x.vc.Fresh(hint+".len", SInt)
 		x.vc.Fact("(>= " + ln + " 0)")
-		x.vc.Fact("(<= " + ln + " 4611686018427387904)")
+		x.vc.Fact("(<= " + ln + " 17592186044416)")
 		return x.sliceV(t, arr, "0", ln)
 	case KTuple:
 		tu := t.(*types.Tuple)
@@ -374,4 +374,29 @@ func sortedObjNames(m map[types.Object]*Val) []types.Object {
 		return ks[i].Name() < ks[j].Name()
 	})
 	return ks
+}
+
+// wellFormed records well-formedness facts of a value that comes from outside (parameter,
+// callee result): references it contains denote allocated objects.
+func (x *Exec) wellFormed(st *State, v *Val) {
+	switch v.K {
+	case KInt:
+		if isRefType(v.T) {
+			x.allocated(st, v.S)
+		}
+	case KStruct:
+		for _, k := range sortedKeys(v.F) {
+			x.wellFormed(st, v.F[k])
+		}
+	case KSlice:
+		if el := v.T.Underlying().(*types.Slice).Elem(); isRefType(el) {
+			top := x.heapGet(st, allocKey, SInt)
+			a, off, ln := v.F["arr"].S, v.F["off"].S, v.F["len"].S
+			x.vc.Fact("(forall ((k Int)) (! (=> (and (<= 0 k) (< k " + ln + ")) (and (>= (select " + a + " " + Add(off, "k") + ") 0) (< (select " + a + " " + Add(off, "k") + ") " + top + "))) :pattern ((select " + a + " " + Add(off, "k") + "))))")
+		}
+	case KTuple:
+		for _, e := range v.Elems {
+			x.wellFormed(st, e)
+		}
+	}
 }
